@@ -235,8 +235,10 @@ fn std_strategy() -> BS<StdConv> {
         (3, log_mag(64).prop_map(|m| m as u64).boxed()),
         (2, (-3i128..=3).prop_map(|d| ((DMAX / NS_S) + d) as u64).boxed()),
         (1, (0u64..100).boxed()),
+        // whole centuries +- 2 s
+        (2, (0u64..=6, 0u64..=4).prop_map(|(k, d)| (k * 3_155_760_000 + d).saturating_sub(2)).boxed()),
     ]);
-    (secs, 0u32..1_000_000_000, dur_any())
+    (secs, prop_oneof![3 => 0u32..1_000_000_000, 1 => prop::sample::select(vec![0u32, 1, 999_999_999, 500_000_000])], dur_any())
         .prop_map(|(secs, nanos, d)| StdConv { secs, nanos, d })
         .boxed()
 }
